@@ -304,7 +304,7 @@ func c07Hello(c *Ctx, r *Report, rule string) {
 	add("two key shares", func(h *helloSpec) { h.keyShares = [][2]int{{29, 32}, {23, 65}} })
 	add("a byte behind the extensions block", func(h *helloSpec) { h.trailing = 1 })
 	for _, hs := range specs {
-		data := hs.build()
+		data := hs.build()[c07HeaderOffset(c):]
 		if hs.trailing > 0 {
 			// crypto/tls refuses such a hello; the parser here stops before the extensions: nothing of them is reported
 			hs.noExt = true
